@@ -34,7 +34,7 @@ def holder(sc):
     return cm
 
 
-def end_to_end(sc, which, cond, threads=1, mixed=False, layers=(0.0, 7000.0), off_pos=None):
+def end_to_end(sc, which, cond, threads=1, mixed=False, layers=(0.0, 7000.0), off_pos=None, vignetted=None):
     """on-axis sensor duplicating off-axis sensor `which` of a three-sensor system built by the real covariance builder
     (optionally by its multi-process path, optionally with a different wavelength per off-axis sensor)"""
     n = 4
@@ -42,7 +42,13 @@ def end_to_end(sc, which, cond, threads=1, mixed=False, layers=(0.0, 7000.0), of
     ring = ((xx - 1.5) ** 2 + (yy - 1.5) ** 2 <= 4.1).astype(float)
     off_pos = off_pos or [[10.0, 0.0], [-6.0, 8.0], [-5.0, -9.0]]
     off_alt = [90000.0, 0.0, 90000.0]
-    masks = [ring] * 4
+    off_masks = [ring, ring, ring]
+    if vignetted is not None:                 # one off-axis sensor sees a vignetted pupil: sensors with different numbers of sub-apertures
+        vm = ring.copy()
+        vm[np.argwhere(ring == 1)[0][0], np.argwhere(ring == 1)[0][1]] = 0
+        vm[np.argwhere(ring == 1)[-1][0], np.argwhere(ring == 1)[-1][1]] = 0
+        off_masks[vignetted] = vm
+    masks = [off_masks[which]] + off_masks
     pos = [off_pos[which]] + off_pos
     alt = [off_alt[which]] + off_alt
     off_wl = [500e-9, 900e-9, 1650e-9] if mixed else [600e-9] * 3
@@ -51,9 +57,13 @@ def end_to_end(sc, which, cond, threads=1, mixed=False, layers=(0.0, 7000.0), of
                              2, np.array(layers), np.array([0.2, 0.35]), np.array([25.0, 30.0]), threads=threads)
     cm.make_covariance_matrix()
     R = np.asarray(cm.make_tomographic_reconstructor(cond), float)
-    ns = int(ring.sum())
-    want = np.zeros_like(R)
-    want[:, which * 2 * ns:(which + 1) * 2 * ns] = np.eye(2 * ns)
+    counts = [int(m_.sum()) for m_ in off_masks]
+    ns = counts[which]
+    want = np.zeros((2 * ns, 2 * sum(counts)))
+    c0 = 2 * sum(counts[:which])
+    want[:, c0:c0 + 2 * ns] = np.eye(2 * ns)
+    if R.shape != want.shape:
+        return float("inf"), cm
     return float(np.abs(R - want).max()), cm
 
 
@@ -202,6 +212,16 @@ def run(run):
                 run.violation("reconstructor:end-to-end-duplicate-sensor" + (":multiprocess-build" if threads > 1 else "")
                               + (":mixed-wavelengths" if mixed else ""), dict(duplicate_of=which, max_dev=dev),
                               dict(kind="e2e", which=which, threads=threads, mixed=mixed))
+    # sensors with different numbers of sub-apertures (a vignetted off-axis pupil), duplicate at every position
+    for which in (0, 1, 2):
+        for vg in (0, 1, 2):
+            dev, cmo = end_to_end(sc, which, 0.0, 1, False, vignetted=vg)
+            e2e.append(dict(duplicate_of=which, vignetted_sensor=vg, max_dev=dev))
+            Cv = np.asarray(cmo.covariance_matrix, float)
+            if not dev <= 1e-3 or not np.array_equal(Cv, Cv.T):
+                run.violation("reconstructor:end-to-end-duplicate-sensor:unequal-sub-aperture-counts", dict(duplicate_of=which, vignetted=vg, max_dev=dev,
+                              asymmetry=float(np.abs(Cv - Cv.T).max())), dict(kind="e2e", which=which, vignetted=vg))
+                break
     # guide stars ON the coordinate axes of the field (one direction component exactly zero) are directions like any other
     for which in (0, 1, 2):
         dev, cmo = end_to_end(sc, which, 0.0, 1, False, off_pos=[[12.0, 0.0], [0.0, 9.0], [-11.0, 0.0]])
@@ -237,6 +257,17 @@ def run(run):
     if R.shape != fresh.shape or not np.allclose(R, fresh, rtol=0, atol=1e-9 * max(1.0, np.abs(fresh).max())):
         run.violation("reconstructor:stale-after-rebuild", dict(max_dev=float(np.abs(R - fresh).max()) if R.shape == fresh.shape else None),
                       dict(kind="rebuild"))
+    # ... and it must be the reconstructor of the NEW geometry: the science direction now duplicates the second off-axis sensor, and a fresh
+    # object given that geometry from the start holds the same matrix
+    R0 = np.asarray(cmo.make_tomographic_reconstructor(0.0), float)
+    ns_ = int(cmo.n_subaps[0])
+    want = np.zeros_like(R0)
+    want[:, 1 * 2 * ns_:2 * 2 * ns_] = np.eye(2 * ns_)          # gp[2] is the second off-axis sensor (index 0 is the science direction)
+    _, fresh_obj = end_to_end(sc, 1, 0.0)
+    Cf = np.asarray(fresh_obj.covariance_matrix, float)
+    if np.abs(R0 - want).max() > 1e-3 or Cf.shape != Cb.shape or not np.array_equal(Cf, np.asarray(Cb, float)):
+        run.violation("reconstructor:stale-geometry-after-rebuild", dict(max_dev=float(np.abs(R0 - want).max()),
+                      matrix_differs_from_fresh_object=bool(Cf.shape != Cb.shape or not np.array_equal(Cf, np.asarray(Cb, float)))), dict(kind="rebuild"))
     run.traces += n_sing + 4
     run.aux.update(integer_cases=len(trace), singular_cases=n_sing, end_to_end=e2e)
     run.bounds = dict(gen_cfg="Tomo_gen.cfg", cases=len(cases), n_onaxis=1, off_axis_slopes=[2, 4])
@@ -288,6 +319,6 @@ def replay(run, case):
         if Rs.shape != R1.shape or not np.allclose(Rs, R1, rtol=0, atol=1e-7 * max(1.0, np.abs(R1).max())):
             run.violation("reconstructor:depends-on-the-units-of-the-covariance", dict(case=c), case)
     elif k == "e2e":
-        dev, _ = end_to_end(sc, case["which"], 0.0, case.get("threads", 1), case.get("mixed", False), tuple(case.get("layers", (0.0, 7000.0))), case.get("off_pos"))
+        dev, _ = end_to_end(sc, case["which"], 0.0, case.get("threads", 1), case.get("mixed", False), tuple(case.get("layers", (0.0, 7000.0))), case.get("off_pos"), case.get("vignetted"))
         if not dev <= 1e-3:
             run.violation("reconstructor:end-to-end-duplicate-sensor", dict(max_dev=dev), case)
